@@ -237,7 +237,7 @@ PROPS['C05'] = {
 PROPS['C02'] = {
     'units': ['solver'],
     'functions': SOLVER_FNS,
-    'oracles': {'*': 'c02_cut', '#programs': 'c02_prog'},
+    'oracles': {'*': 'c02_cut', '#programs': 'c02_prog', '#cut_walk': 'c02_walk'},
     'bounded': [('c02_cut', 'supplementary to the proof, and the source of witnesses: 29 queries over a program of 45 clauses with cuts (cut then failure, cut in the first / a later clause, cut inside an alternative, cuts in nested calls, cut under not, recursion ended by a cut) - '
                             'the engine\'s answer sequence against a reference interpreter written from the statement (depth-first resolution; a cut that is backtracked into fails its clause; after a cut the call yields no answer beyond the one being derived)')],
     'not_covered': [
@@ -245,7 +245,7 @@ PROPS['C02'] = {
         'an and-node whose flag is set when the goals after the cut have failed does not get another answer from the goals to the left (#cut_left_goals: the flag of a node implies the flag of its head node - heap invariant); '
         'whatever cuts run during a request, no node above the call the node belongs to has its flag changed (#cut_confined: the caller and everything above it are unaffected)',
         'ASSUMED, because it is unsafe code outside both verifiers\' deductive reach: what SolutionNode::set_no_backtracking() does - it sets the flag of the cut\'s node, of every node up the parent_node links until a node without parent (the complex-goal node of the call, by make_solution_node), and of the head node of each of these. '
-        'A Kani harness (bounded: chains of up to 3 nodes built from the real struct) checks exactly that on the real function; the heap-level contract of next_solution_bip for `!` (flags kept above the call; invariant kept) is its abstraction',
+        'The bounded oracle c02_walk checks exactly that specification on the real function with real nodes (parent chains of length 0-5, every combination of head nodes, heads of heads, and tail nodes that point into the chain: 329 shapes); from the specification next_solution_bip is PROVED to keep the invariant, flag the call node and leave everything above the call alone (lemma_walk)',
         '"the call yields no answers beyond the one being derived when the cut ran" = the flag of the call node is set by the walk (assumed, above) + #cut_blocks (proved)',
         'RELATIVE TO the heap model (T8); partial correctness',
     ],
